@@ -724,6 +724,10 @@ class QMI_RpcProxy:
         # Create a lock token for this proxy and try to lock the object.
         their_lock_token = "None"
         if lock_token is not None:
+            if lock_token in (ACCESS_DENIED_TOKEN_PLACEHOLDER, OBJECT_LOCKED_TOKEN_PLACEHOLDER):
+                # These values are used in lock replies to signal a denied request or a locked object.
+                raise QMI_UsageException(f"`{lock_token}` is a reserved lock token")
+
             my_lock_token = QMI_LockTokenDescriptor(self._context.name, lock_token)
 
         else:
